@@ -64,7 +64,9 @@ TEXTS = {
     "C10": dict(technique="Lean 4 theorem (function equality of the two template instantiations) + variant-pair execution",
                 design_ref="DESIGN.md §5 C10",
                 level_text=("Kernel-checked theorem C10_equiv: for every grammar (left-recursive included), code environment, input and option set with Memoize off, the optimized and the standard instantiation of the runtime model "
-                            "compute the same parse result (value, errors, stores, trace) when the grammar has state-change blocks. Without state blocks (the optimized parser has no store at all) the equivalence is decided by running every generated case on the variant pair (X, X + -optimize-parser) of real generated parsers."),
+                            "compute the same parse result (value, errors, stores, trace) when the grammar has state-change blocks; C10_equiv_no_state: for grammars WITHOUT state blocks (the optimized parser then has no store at all) the run of the optimized parser "
+                            "is the run of the standard parser with the store erased (same value, errors, global store, block invocations), for every code environment whose blocks neither read nor write the store (Proofs/OptEquivNoState.lean). "
+                            "Both are also run on real generated parsers: every generated case on the variant pair (X, X + -optimize-parser)."),
                 level_note=RT_NOTE),
     "C12": dict(technique="Lean 4 theorems (bookkeeping = declarative max/filter; message shape) + differential correspondence + output oracle",
                 design_ref="DESIGN.md §5 C12",
